@@ -15,7 +15,7 @@ VERIF = gen.VERIF
 CACHE = os.path.join(VERIF, '.cache')
 
 VERIF_FAIL_PATTERNS = [
-    'postcondition not satisfied', 'precondition not met', 'assertion failed',
+    'postcondition not satisfied', 'precondition not met', 'precondition not satisfied', 'assertion failed',
     'loop invariant not satisfied', 'invariant not satisfied', 'possible arithmetic underflow/overflow',
     'possible division by zero', 'could not prove termination', 'decreases not satisfied',
     'possible bit shift underflow/overflow', 'cannot show invariant', 'constructed value may fail',
